@@ -163,6 +163,70 @@ theorem C02_parse_value_roundtrip (c : Ctx) (s : Str) (q : Bool) (out : Str) (c'
     refine ⟨true, ⟨⟨ctx, L, C, .qvalue⟩, none⟩, ?_, rfl, rfl, Or.inl rfl⟩
     simp only [parseValue, bind, P.bind, hnt, Presentation.tokType, hcs, pure, P.pure, consume]
 
+open Spec.Lexical Model.Lexer Model.Parser in
+/-- **C02_parse_item_roundtrip** — one level up: the parser's item production (`parse_item`, called behind a data name) on
+    what `write_char` wrote stores — without any report, under every policy — exactly the value `.chr q' s` under that name
+    (`cif_container_set_value`), `q'` as in `C02_parse_value_roundtrip`, and leaves the scanner behind the value. -/
+theorem C02_parse_item_roundtrip (c : Ctx) (s : Str) (q : Bool) (out : Str) (c' : Ctx)
+    (hok : okUnits (Lemmas.WriterLex.diaOf c) none s = true) (hcol : c.lastColumn ≤ LINE)
+    (h : writeChar c s q true = .ok (out, c'))
+    (o : Opts) (hdia : o.dia = Lemmas.WriterLex.diaOf c) (hunf : o.unfold = true) (hprem : o.prem = true)
+    (w0 : List WsAtom) (ctx : Str) (line col : Nat) (lt : TokType) (pol : Policy) (w : Model.Parser.W) (fuel : Nat)
+    (path : Path) (name : Str)
+    (hw0 : ∀ a ∈ w0, a.ok (Lemmas.WriterLex.diaOf c) = true)
+    (hfirst : afterWsOf lt = true ∨ ∀ b rest, w0 ≠ WsAtom.comment b :: rest)
+    (hws : (afterWsOf lt || !w0.isEmpty) = true)
+    (hfitw : linesFit col (renderWs w0) = true)
+    (hcolw : (posAfter line col (renderWs w0)).2 ≤ c.lastColumn)
+    (hctx : followOk (Lemmas.WriterLex.diaOf c) ctx = true) :
+    ∃ (q' : Bool) (ps' : PS),
+      parseItem o (fuel + 1) ⟨⟨renderWs w0 ++ (out ++ ctx), line, col, lt⟩, none⟩ (some path) (some name) pol w
+        = P.bind (setValue o path name (.chr q' s)) (fun _ => P.pure ps') pol w
+      ∧ ps'.tok = none ∧ ps'.scan.rest = ctx ∧ (q' = true ∨ (q' = false ∧ q = false)) := by
+  have h0 := Lemmas.WriterLex.okUnits_noNUL _ s hok
+  have hcs : cstr s = s := C01_cstr_id s (fun x hx e => h0 (e ▸ hx))
+  obtain ⟨p, s', L, C, hn, hs1, hs2, hb⟩ := C02_value_roundtrip c s q out c' hok hcol h w0 ctx line col lt pol w.log
+    hw0 hfirst hws hfitw hcolw hctx
+  have hnt : nextTok o ⟨⟨renderWs w0 ++ (out ++ ctx), line, col, lt⟩, none⟩ pol w
+      = .ok (⟨p.tokType, s', L, C⟩, ⟨⟨ctx, L, C, p.tokType⟩, some ⟨p.tokType, s', L, C⟩⟩) w := by
+    simp only [nextTok, bind, P.bind, liftL, hdia, hn, pure, P.pure]
+  -- the pending token is handed out again by parse_value
+  have hnt2 : nextTok o ⟨⟨ctx, L, C, p.tokType⟩, some ⟨p.tokType, s', L, C⟩⟩ pol w
+      = .ok (⟨p.tokType, s', L, C⟩, ⟨⟨ctx, L, C, p.tokType⟩, some ⟨p.tokType, s', L, C⟩⟩) w := rfl
+  cases p with
+  | text =>
+    refine ⟨true, ⟨⟨ctx, L, C, .tvalue⟩, none⟩, ?_, rfl, rfl, Or.inl rfl⟩
+    simp only [parseItem, parseValue, bind, P.bind, nextTok, liftL, hdia, hn, Presentation.tokType, isKeyTok, isValueStart, hunf, hprem,
+      hs2 rfl, hcs, pure, P.pure, consume, Bool.false_eq_true, ↓reduceIte]
+  | bare =>
+    have e := hs1 (by intro e; cases e)
+    subst e
+    obtain ⟨hq, _, hrec⟩ := hb rfl
+    refine ⟨false, ⟨⟨ctx, L, C, .value⟩, none⟩, ?_, rfl, rfl, Or.inr ⟨rfl, hq⟩⟩
+    have hbv := C02_bare_value (Lemmas.WriterLex.diaOf c) s' _ _ h0 hrec
+    simp only [parseItem, parseValue, bind, P.bind, nextTok, liftL, hdia, hn, Presentation.tokType, isKeyTok, isValueStart, hbv, pure, P.pure,
+      consume, Bool.false_eq_true, ↓reduceIte]
+  | squote =>
+    have e := hs1 (by intro e; cases e); subst e
+    refine ⟨true, ⟨⟨ctx, L, C, .qvalue⟩, none⟩, ?_, rfl, rfl, Or.inl rfl⟩
+    simp only [parseItem, parseValue, bind, P.bind, nextTok, liftL, hdia, hn, Presentation.tokType, isKeyTok, isValueStart, hcs, pure, P.pure,
+      consume, Bool.false_eq_true, ↓reduceIte]
+  | dquote =>
+    have e := hs1 (by intro e; cases e); subst e
+    refine ⟨true, ⟨⟨ctx, L, C, .qvalue⟩, none⟩, ?_, rfl, rfl, Or.inl rfl⟩
+    simp only [parseItem, parseValue, bind, P.bind, nextTok, liftL, hdia, hn, Presentation.tokType, isKeyTok, isValueStart, hcs, pure, P.pure,
+      consume, Bool.false_eq_true, ↓reduceIte]
+  | tsquote =>
+    have e := hs1 (by intro e; cases e); subst e
+    refine ⟨true, ⟨⟨ctx, L, C, .qvalue⟩, none⟩, ?_, rfl, rfl, Or.inl rfl⟩
+    simp only [parseItem, parseValue, bind, P.bind, nextTok, liftL, hdia, hn, Presentation.tokType, isKeyTok, isValueStart, hcs, pure, P.pure,
+      consume, Bool.false_eq_true, ↓reduceIte]
+  | tdquote =>
+    have e := hs1 (by intro e; cases e); subst e
+    refine ⟨true, ⟨⟨ctx, L, C, .qvalue⟩, none⟩, ?_, rfl, rfl, Or.inl rfl⟩
+    simp only [parseItem, parseValue, bind, P.bind, nextTok, liftL, hdia, hn, Presentation.tokType, isKeyTok, isValueStart, hcs, pure, P.pure,
+      consume, Bool.false_eq_true, ↓reduceIte]
+
 /-- FULL (whole documents, against the integrated parser model of group gJ): whatever `cif_write` emits in CIF 2.0 mode
     for the walk `wc` of a CIF is parsed — nested frames allowed, accept-all policy (hence, by `C01_error_free_policy_independent`,
     any policy) — with return code 0, without a single report, into a CIF `equiv`alent to the original.
